@@ -132,7 +132,10 @@ def nonneg_form(e):
 
 def shapes(tier):
     if tier == "quick":
-        return [(5, 8, 2, 1, False), (7, 8, 3, 2, True), (9, 4, 4, 2, False), (5, 8, 0, 0, True), (7, 4, 7, 4, False), (11, 8, 6, 4, True), (13, 4, 8, 3, False)]
+        # ntheta = 12: neither the fine nor the coarse angular count is a power of two (the index wrap takes its general
+        # branch on both grids; seed C08-2 inlined a power-of-two mask in the optimised prolongation)
+        return [(5, 8, 2, 1, False), (7, 8, 3, 2, True), (9, 4, 4, 2, False), (5, 8, 0, 0, True), (7, 4, 7, 4, False), (11, 8, 6, 4, True), (13, 4, 8, 3, False),
+                (7, 12, 3, 2, False), (5, 12, 2, 1, True), (7, 20, 7, 4, False)]
     out = []
     for nr in (5, 7, 9):
         for nt in (4, 8, 12):
